@@ -70,12 +70,10 @@ def pair_stage(ctx, binary, pairs, k1, devs, what):
         raise vlib.InfraError("pair harness did not process all pairs (%s)" % what)
     ctx.cov["traces_validated_against_impl"] += len(pairs)
     explained = []
-    for r in recs:
-        if not r.get("mismatch"):
-            continue
-        again = [x for x in vlib.run_harness(ctx, binary, args=["-mode=pairs"], cases=[r["case"]]) if x.get("mismatch")]
-        if not again:
-            continue
+    bad = [r for r in recs if r.get("mismatch")]
+    if bad:   # every pair runs on a fresh metric: re-execute the failing ones alone before believing them
+        bad = [x for x in vlib.run_harness(ctx, binary, args=["-mode=pairs"], cases=[r["case"] for r in bad]) if x.get("mismatch")]
+    for r in bad:
         a, b = r["case"]["a"], r["case"]["b"]
         ka, kb = k1.get(mm.dumps(a)), k1.get(mm.dumps(b))
         if DEV in devs and ka is not None and ka == kb:
@@ -90,7 +88,7 @@ def graph_stage(ctx, binary, devs):
     mc = mm.mc_module(TUPLES, BAD, vtypes=("Int",))
     invs = mm.STATE_INVS + ["StepOK", "Emit"]
     g0 = mm.Graph()
-    r = vlib.tlc(ctx, "MCMetric", mm.cfg("graph", invariants=invs, view="View"), extra_files={"MCMetric.tla": mc},
+    r = vlib.tlc(ctx, "MCMetric", mm.cfg("graph", invariants=invs, view="GraphView"), extra_files={"MCMetric.tla": mc},
                  case_sink=g0.add, label="Metric-graph-collide", timeout=1500)
     g0.check_closed()
     if len(g0.edges) != r.distinct:
@@ -102,7 +100,7 @@ def graph_stage(ctx, binary, devs):
                                        DEV, extra_files={"MCMetric.tla": mc})
         # ... and its graph is what the real code is expected to follow while the finding is open
         g1 = mm.Graph()
-        vlib.tlc(ctx, "MCMetric", mm.cfg("graph", dev=True, invariants=["Emit"], view="View"), extra_files={"MCMetric.tla": mc},
+        vlib.tlc(ctx, "MCMetric", mm.cfg("graph", dev=True, invariants=["Emit"], view="GraphView"), extra_files={"MCMetric.tla": mc},
                  case_sink=g1.add, label="Metric-graph-collide-dev", timeout=1500)
         g1.check_closed()
     hdr = mm.header(TUPLES, BAD, 2)
